@@ -6,7 +6,7 @@ sys.path.insert(0, os.path.join(ROOT, "tools"))
 import manifest_table as mt
 import props
 for _pid, _P in props.REGISTRY.items():
-    if getattr(_P, 'manifest', None):
+    if getattr(_P, 'manifest', None) and _pid in mt.REGISTERED:
         mt.CLAIMED[_pid] = _P.manifest
 ids = [json.loads(l)["id"] for l in open(os.path.join(ROOT, "properties.jsonl"))]
 checks = []
